@@ -60,8 +60,9 @@ func not3(a Tri) Tri {
 
 // Stats counts which doc-silent cases an evaluation ran into.
 type Stats struct {
-	URelAllEmpty int // relation "all" over an empty set of relatives
-	UTimeGuess   int // permanode "time" constraint on a permanode without a content time
+	URelAllEmpty    int // relation "all" over an empty set of relatives
+	UTimeGuess      int // permanode "time" constraint on a permanode without a content time
+	URelAllDangling int // relation "all" where every known relative matches but one edge points at an unknown blob
 }
 
 // Evaluator evaluates search constraints over the model.
@@ -353,6 +354,7 @@ func edgeMatches(rc *search.RelationConstraint, attr string) bool {
 // Relatives are taken at time at (the enclosing PermanodeConstraint's At).
 func (e *Evaluator) relation(rc *search.RelationConstraint, p *Perm, at time.Time) Tri {
 	var rel []*Blob
+	dangling := 0
 	seen := map[string]bool{}
 	addRel := func(b *Blob) {
 		if b != nil && !seen[b.RefS] {
@@ -369,7 +371,11 @@ func (e *Evaluator) relation(rc *search.RelationConstraint, p *Perm, at time.Tim
 			}
 			for _, v := range attrs[a] {
 				if ref, ok := blob.Parse(v); ok {
-					addRel(e.W.Blobs[ref.String()]) // generated edges always point at indexed blobs
+					if rb := e.W.Blobs[ref.String()]; rb != nil {
+						addRel(rb)
+					} else {
+						dangling++ // an edge to a blob the index never saw: no node to test
+					}
 				}
 			}
 		}
@@ -405,6 +411,11 @@ func (e *Evaluator) relation(rc *search.RelationConstraint, p *Perm, at time.Tim
 	r := T
 	for _, b := range rel {
 		r = and3(r, e.Matches(rc.All, b))
+	}
+	if r == T && dangling > 0 {
+		// whether an edge to an unknown blob counts against "all" is not documented
+		e.Stats.URelAllDangling++
+		return U
 	}
 	return r
 }
